@@ -174,6 +174,12 @@ func (e *Engine) parseType(pkg *types.Package, s string) types.Type {
 		return types.Typ[types.Uint32]
 	case "uint64":
 		return types.Typ[types.Uint64]
+	case "float64":
+		return types.Typ[types.Float64]
+	case "int8":
+		return types.Typ[types.Int8]
+	case "uint8", "byte":
+		return types.Typ[types.Uint8]
 	case "bool", "Bool":
 		return types.Typ[types.Bool]
 	case "string", "String":
